@@ -2,6 +2,7 @@ package main
 
 import (
 	"fmt"
+	"runtime"
 	"strings"
 
 	"verif/internal/tsgu"
@@ -122,6 +123,11 @@ func c10Exec(kind string, k int, in c10Input, rep *Report) (viol, detail string)
 	var probeWhy string
 	canon := c10Canonical()
 	res := &SeqResult{}
+	if announcesHuge(in.Segs) {
+		defer hugeLock()()
+	}
+	var m0, m1 runtime.MemStats
+	runtime.ReadMemStats(&m0)
 	x := vsched.Run(nil, 20000, false, nil, func() {
 		w := NewWorld()
 		res.World = w
@@ -161,11 +167,21 @@ func c10Exec(kind string, k int, in c10Input, rep *Report) (viol, detail string)
 		c2.CloseClient()
 		c.CloseClient()
 	})
+	runtime.ReadMemStats(&m1)
 	rep.add("executions", 1)
 	rep.add("transitions", int64(x.Steps))
 	defer x.Finish()
 	if x.Abort != "" {
 		return "step-cap-exceeded (livelock?)", x.Abort
+	}
+	// memory: what the gateway allocates follows what the client SENT, not what a length field announces; a
+	// few bytes that make it reserve hundreds of MiB per connection end the process under any memory limit
+	sent := 0
+	for _, sg := range in.Segs {
+		sent += len(sg)
+	}
+	if grown := m1.TotalAlloc - m0.TotalAlloc; grown > 256<<20+64*uint64(sent) {
+		return "memory-reserved-by-announced-length", fmt.Sprintf("%d bytes of client input made the gateway allocate %d MiB", sent, grown>>20)
 	}
 	for _, p := range x.Panics() {
 		return "panic:" + shortFn(panicSite(p)), fmt.Sprintf("thread %s: %s", p.Name, p.Value)
@@ -290,7 +306,7 @@ func c10Stalled(kind, end string, rep *Report) (viol, detail string) {
 func c10(env *Env, rep *Report) {
 	ins := c10Inputs()
 	rep.Rule = fmt.Sprintf("(a) %d hostile packet inputs (every type in {0..0x12,0xFF,0x100,0xFFFF} x header length fields {0..16,true-1,true,true+1,4096,0xFFFF,2^31-1,2^31,2^32-1}; headers truncated at 0..7 bytes; every body truncation of each request; inner length fields {0,1,true-1,true,true+1,0x7FFF,0xFFFF}; field masks; invalid UTF-16) x 6 protocol phases (after 0..5 packets of the canonical session) x transports {processor, websocket, legacy}; "+
-		"(c) NTLM messages against the real verifier; (d) KDC-proxy bodies against the real handler; (e) every sequence of up to 3 requests from {RDG_IN_DATA, RDG_OUT_DATA, websocket upgrade, GET, unknown method} x connection ids {X, Y, none} against the real handler; (b) HTTP-level inputs against the real rdpgw binary (see the part reports); (i) every end-of-tunnel fault scenario of C11 under the default schedule, each also against a gateway configured with an idle timeout, plus clients that keep the connection and fall silent after each stage (virtual time: every timer the gateway arms fires, its function in a thread of its own), judged for panics; (j) a packet kept incomplete over 10 / 200 / 2000 fragments (empty websocket messages; one byte at a time of a packet announced as nearly 4 GiB): the depth of the reader's call stack must not grow with the fragments; (h) a client that stopped reading while its host keeps writing (gateway writes block), then a bad header / out-of-order packet / channel close / nothing: another client is still served and nothing is left behind; (g) a tour of the real binary under 6 authentication configurations: login, download, token introspection, every registered route, and a complete session over each transport with the callbacks as main() wires them. Oracle for (a): no panic in any thread, a second client still completes a handshake afterwards, and after all clients left no gateway goroutine remains. distinct_nontrivial = distinct (input, phase, transport) cases.", len(ins))
+		"(c) NTLM messages against the real verifier; (d) KDC-proxy bodies against the real handler; (e) every sequence of up to 3 requests from {RDG_IN_DATA, RDG_OUT_DATA, websocket upgrade, GET, unknown method} x connection ids {X, Y, none} against the real handler; (b) HTTP-level inputs against the real rdpgw binary (see the part reports); (i) every end-of-tunnel fault scenario of C11 under the default schedule, each also against a gateway configured with an idle timeout, plus clients that keep the connection and fall silent after each stage (virtual time: every timer the gateway arms fires, its function in a thread of its own), judged for panics; (j) a packet kept incomplete over 10 / 200 / 2000 fragments (empty websocket messages; one byte at a time of a packet announced as nearly 4 GiB): the depth of the reader's call stack must not grow with the fragments; (h) a client that stopped reading while its host keeps writing (gateway writes block), then a bad header / out-of-order packet / channel close / nothing: another client is still served and nothing is left behind; (g) a tour of the real binary under 6 authentication configurations: login, download, token introspection, every registered route, and a complete session over each transport with the callbacks as main() wires them. Oracle for (a): no panic in any thread, no execution allocates more than 256 MiB + 64 x the bytes the client sent (a length field must not reserve memory: under any memory limit that ends the process), a second client still completes a handshake afterwards, and after all clients left no gateway goroutine remains. distinct_nontrivial = distinct (input, phase, transport) cases.", len(ins))
 	rep.Assumptions = append(rep.Assumptions, "each hostile input is one transport read (segmentations are C08's); table cookie checker")
 	if env.Replay != nil {
 		rp := env.Replay
